@@ -38,7 +38,14 @@ IMAll == {Cons(Op(80), L(<<Atom(<<5>>)>>)), Cons(Op(80), L(<<Atom(<<9>>)>>)), Co
 IMSeq == LET RECURSIVE G(_)
              G(S) == IF S = {} THEN <<>> ELSE LET x == CHOOSE x \in S : TRUE IN <<x>> \o G(S \ {x})
          IN G(IMAll)
-IMIdx == IF MenuSize >= Len(IMSeq) THEN DOMAIN IMSeq ELSE {1 + ((i * Len(IMSeq)) \div MenuSize) : i \in 0..(MenuSize - 1)}
+\* quick tier: a hand-picked interaction core (two values per foldable lock, before/after pairs, births, duplicate outputs, fees, positional rule)
+IMQuick == {Cons(Op(80), L(<<Atom(<<5>>)>>)), Cons(Op(80), L(<<Atom(<<9>>)>>)), Cons(Op(84), L(<<Atom(<<10>>)>>)), Cons(Op(84), L(<<Atom(<<9>>)>>)),
+            Cons(Op(82), L(<<Atom(<<5>>)>>)), Cons(Op(82), L(<<Atom(<<255>>)>>)), Cons(Op(86), L(<<Atom(<<6>>)>>)), Cons(Op(83), L(<<Atom(<<5>>)>>)),
+            Cons(Op(87), L(<<Atom(<<6>>)>>)), Cons(Op(74), L(<<Atom(<<5>>)>>)), Cons(Op(74), L(<<Atom(<<6>>)>>)),
+            Cons(Op(51), L(<<Atom(Z2), Atom(<<7>>)>>)), Cons(Op(51), L(<<Atom(Z2), Atom(<<7>>), L(<<Atom(H5)>>)>>)), Cons(Op(52), L(<<Atom(<<116>>)>>)),
+            Cons(Op(52), L(<<Atom(<<1>>)>>)), Cons(Op(60), L(<<Atom(<<3>>)>>)), Cons(Op(61), L(<<Atom(SHA256(Coin1Id \o <<3>>))>>)),
+            Cons(Op(71), L(<<Atom(P1)>>)), Cons(Op(73), L(<<Atom(Coin1Amt)>>)), Cons(Atom(<<42>>), Nil)}
+IMIdx == IF MenuSize >= Len(IMSeq) THEN DOMAIN IMSeq ELSE {i \in DOMAIN IMSeq : IMSeq[i] \in IMQuick}
 IM == {IMSeq[i] : i \in IMIdx}
 \* unordered triples as sequences in canonical order (all other orders are reached by swapping)
 Triples == {<<IMSeq[i], IMSeq[j], IMSeq[k]>> : i, j, k \in IMIdx} 
